@@ -55,18 +55,27 @@ def check(index, ctx):
     ctx.rule("R3", "vmap guard: every vmap call is reachable only on the negative edge of a test 'rows of this block == 1', where the tested value is shape[0] of a cotangent block; "
              "on the positive edge the VJP callable is applied directly")
     P, rs = _pipe.runs(index)
+    n_part = partition_rule(ctx, P, rs, "R1")
+    ctx.floor("row-block partitions analysed", n_part, 3)
+    sweeps_and_guard(index, ctx)
+    _pipe.common_evidence(ctx, index)
+    ctx.assumptions.append("value-independence from k reduces to R1 plus the vstack of the blocks in block order (C01 R2); vmap ≡ sequential numerically is not decided")
+
+
+def partition_rule(ctx, P, rs, RULE):
+    """Row blocks of the cotangents partition [0, m) in order (shared by C01 / C02 / C07 / C15)."""
     defs = P.ops.sym_defs
     n_part = 0
     for run in rs:
         rows_atom = "tensors" if run.entry == "backward" else "features"
         cand = [r for r in _pipe.main_paths(run) if not _pipe.blocking(r) and any(e["axis"] == 0 and "_differentiate" in e["function"] for e in _pipe.evs(r, "unpack"))]
         if not cand and _pipe.main_paths(run):
-            ctx.undecided("R1", run.label, "no path slices the rows of the cotangents", "")
+            ctx.undecided(RULE, run.label, "no path slices the rows of the cotangents", "")
         for res in cand[:1]:
             sl = [e for e in _pipe.evs(res, "unpack") if e["axis"] == 0 and e["layout_how"] in (None, "stack", "vstack") and "_differentiate" in e["function"]]
             rng = [e for e in _pipe.evs(res, "range") if "_differentiate" in e["function"]]
             if not sl:
-                ctx.undecided("R1", run.label, "no row slicing of the cotangents found", "")
+                ctx.undecided(RULE, run.label, "no row slicing of the cotangents found", "")
                 continue
             fi_loc = sl[0]["loc"]
             key = f"{run.label}: row blocks"
@@ -82,10 +91,10 @@ def check(index, ctx):
                 (loop_sl if syms & set(ivars) else last_sl).append(e)
             unknown = [e for e in sl if (e["lo"] != "None" and e["lo_poly"] is None) or (e["hi"] != "None" and e["hi_poly"] is None)]
             if unknown:
-                ctx.undecided("R1", key, f"slice bounds of `{unknown[0]['text']}` are not polynomial/derived-integer expressions", unknown[0]["loc"])
+                ctx.undecided(RULE, key, f"slice bounds of `{unknown[0]['text']}` are not polynomial/derived-integer expressions", unknown[0]["loc"])
                 continue
             if len(loop_sl) > 1 or len(last_sl) > 1:
-                ctx.undecided("R1", key, f"{len(loop_sl)} loop slices and {len(last_sl)} trailing slices: shape not recognised", fi_loc)
+                ctx.undecided(RULE, key, f"{len(loop_sl)} loop slices and {len(last_sl)} trailing slices: shape not recognised", fi_loc)
                 continue
             n_part += 1
             m_sym = [s for e in sl for p in (e["lo_poly"], e["hi_poly"]) if p is not None for s in p.symbols() if s.startswith("dim0[")]
@@ -107,7 +116,7 @@ def check(index, ctx):
             if not cands_m and not run.variant["chunk"]:
                 cands_m = ["dim0[rows]"]
             if len(cands_m) != 1:
-                ctx.undecided("R1", key, f"row-count symbol not identified uniquely: {cands_m}", fi_loc)
+                ctx.undecided(RULE, key, f"row-count symbol not identified uniquely: {cands_m}", fi_loc)
                 continue
             msym = cands_m[0]
             K = Poly.sym("k") if run.variant["chunk"] else Poly.sym(msym)
@@ -125,7 +134,7 @@ def check(index, ctx):
                     proved = (e["lo_poly"] == I * K and e["hi_poly"] == (I + Poly.const(1)) * K and stop == N - Poly.const(1) and ivars[iv]["nargs"] == 1
                               and last_sl[0]["lo_poly"] == (N - Poly.const(1)) * K and last_sl[0]["hi"] == "None")
             if proved:
-                ctx.ok("R1", key, f"slices [i·k, (i+1)·k) for i < ceil(m/k)−1, then [(ceil(m/k)−1)·k, end): blocks partition [0, m) into ceil(m/k) blocks of at most k rows (normal forms equal)", fi_loc,
+                ctx.ok(RULE, key, f"slices [i·k, (i+1)·k) for i < ceil(m/k)−1, then [(ceil(m/k)−1)·k, end): blocks partition [0, m) into ceil(m/k) blocks of at most k rows (normal forms equal)", fi_loc,
                        derivation={"loop": [repr(loop_sl[0]["lo_poly"]), repr(loop_sl[0]["hi_poly"])], "last": repr(last_sl[0]["lo_poly"])})
                 continue
             # ---- exhaustive evaluation of the extracted expressions
@@ -172,15 +181,12 @@ def check(index, ctx):
                 if bad:
                     break
             if bad:
-                ctx.violated("R1", key, f"for m={bad[0]} rows and parallel_chunk_size={bad[1]}: {bad[2]}", fi_loc,
+                ctx.violated(RULE, key, f"for m={bad[0]} rows and parallel_chunk_size={bad[1]}: {bad[2]}", fi_loc,
                              derivation={"m": bad[0], "k": bad[1], "loop": [repr(x["lo_poly"]) + ":" + repr(x["hi_poly"]) for x in loop_sl], "last": [repr(x["lo_poly"]) for x in last_sl]})
             else:
-                ctx.ok("R1", key, f"index expressions evaluated exhaustively on {n_eval} (m, k) pairs (m ≤ 12): ordered partition, non-empty, ≤ k rows, ceil(m/k) blocks"
+                ctx.ok(RULE, key, f"index expressions evaluated exhaustively on {n_eval} (m, k) pairs (m ≤ 12): ordered partition, non-empty, ≤ k rows, ceil(m/k) blocks"
                        + ("" if run.variant["chunk"] else " [chunk size None: one block]"), fi_loc, derivation={"bounded": True, "pairs": n_eval})
-    ctx.floor("row-block partitions analysed", n_part, 3)
-    sweeps_and_guard(index, ctx)
-    _pipe.common_evidence(ctx, index)
-    ctx.assumptions.append("value-independence from k reduces to R1 plus the vstack of the blocks in block order (C01 R2); vmap ≡ sequential numerically is not decided")
+    return n_part
 
 
 def calls_in(node, pred):
